@@ -69,7 +69,7 @@ def run(ctx):
     local = sorted(n for n in seen if n in F.fns and F.fns[n].crate == "rws" and F.fns[n].kind != "Promoted")
 
     # ---- R1 full delivery
-    r1 = chk.rule("R1-full-delivery", "response bytes are sent to the transport with Write::write_all (a bare Write::write whose count is not re-submitted is a short-write truncation)", floor=2)
+    r1 = chk.rule("R1-full-delivery", "response bytes are sent to the transport with Write::write_all (a bare Write::write whose count is not re-submitted is a short-write truncation)", floor=1)
     cnt = {}
     for n in local:
         fn = F.fns[n]
